@@ -55,6 +55,7 @@ var opKinds = []string{"join-new", "join-new", "rejoin-new-addr", "reuse-addr", 
 
 type plan struct {
 	Notify  bool // notify-driven bootstrap of 3 voters instead of bootstrap+join
+	Quirk   int  // notify mode only: 0 plain, 1 two IDs for one address, 2 two addresses for one ID
 	Voters  int  // initial voters (bootstrap+join mode): 1..3
 	NonV    int  // initial non-voters: 0..1
 	ReapCfg int  // index into reapCfgs
@@ -70,6 +71,7 @@ func genPlan(rt *rapid.T) plan {
 		NonV: rapid.IntRange(0, 1).Draw(rt, "nonv"), ReapCfg: rapid.IntRange(0, len(reapCfgs)-1).Draw(rt, "reapcfg")}
 	if p.Notify {
 		p.Voters = 3
+		p.Quirk = []int{0, 0, 1, 2}[rapid.IntRange(0, 3).Draw(rt, "quirk")]
 	}
 	n := rapid.IntRange(1, vstat.Scale(6, 9)).Draw(rt, "nops")
 	for i := 0; i < n; i++ {
@@ -85,15 +87,16 @@ func (p plan) String() string {
 	for i, o := range p.Ops {
 		s[i] = o.String()
 	}
-	return fmt.Sprintf("notify=%v voters=%d nonv=%d reap=%v ops=[%s] kill=%v/%d", p.Notify, p.Voters, p.NonV, reapCfgs[p.ReapCfg], strings.Join(s, " "), p.Kill, p.KillSel)
+	return fmt.Sprintf("notify=%v/%d voters=%d nonv=%d reap=%v ops=[%s] kill=%v/%d", p.Notify, p.Quirk, p.Voters, p.NonV, reapCfgs[p.ReapCfg], strings.Join(s, " "), p.Kill, p.KillSel)
 }
 
 type member struct {
-	id    string
-	addr  string
-	voter bool
-	node  *vnode.Node // process (may be stopped)
-	alive bool
+	id     string
+	addr   string
+	voter  bool
+	node   *vnode.Node // process (may be stopped)
+	alive  bool
+	deadAt time.Time // when the harness stopped/killed the process (valid while !alive)
 }
 
 type env struct {
@@ -218,6 +221,22 @@ func (e *env) check(after string) (sig, msg string, inconclusive bool) {
 			role = "nonvoter"
 		}
 		switch {
+		case !ok && !m.alive:
+			// a member whose process is gone may be reaped -- judged by its role's timeout
+			timeout := e.c.Opts.ReapTimeout
+			if !m.voter {
+				timeout = e.c.Opts.ReapReadOnlyTimeout
+			}
+			dead := time.Since(m.deadAt)
+			if timeout == 0 || timeout >= time.Hour {
+				return "C32/reaped-with-wrong-timeout", fmt.Sprintf("stopped %s %s disappeared from the configuration although the reap timeout for its role is %v; after %s", role, id, timeout, after), false
+			}
+			if dead < reapEarly {
+				return "C32/reaped-too-early", fmt.Sprintf("stopped %s %s disappeared %v after it was stopped; reap timeout %v; after %s", role, id, dead.Round(time.Millisecond), timeout, after), false
+			}
+			e.rec.Label("stopped-member-reaped")
+			delete(e.model, id)
+			return e.check(after)
 		case !ok:
 			return "C32/member-missing", fmt.Sprintf("member %s (acknowledged join, never removed) is not in the configuration %v after %s; model: %s", id, cfg, after, want), false
 		case !strings.HasSuffix(s, "/"+role):
@@ -347,6 +366,7 @@ func (e *env) apply(o mop) (ok bool, desc string) {
 		}
 		e.c.Stop(m.node)
 		m.alive = false
+		m.deadAt = time.Now()
 		n, err := e.c.StartDir(e.ep(), m.id, m.node.Dir, e.c.Opts)
 		if err != nil {
 			return true, "rejoin-new-addr start FAILED " + err.Error()
@@ -365,6 +385,7 @@ func (e *env) apply(o mop) (ok bool, desc string) {
 		}
 		e.c.Stop(m.node)
 		m.alive = false
+		m.deadAt = time.Now()
 		e.c.Wipe(m.node)
 		n, err := e.c.Start(m.node.Name, e.id()) // same endpoint => same address, fresh directory, new ID
 		if err != nil {
@@ -386,6 +407,7 @@ func (e *env) apply(o mop) (ok bool, desc string) {
 		}
 		e.c.Stop(m.node)
 		m.alive = false
+		m.deadAt = time.Now()
 		n, err := e.c.Start(e.ep(), m.id) // fresh endpoint and directory, same ID
 		if err != nil {
 			return true, "reuse-id start FAILED " + err.Error()
@@ -438,33 +460,65 @@ func (e *env) apply(o mop) (ok bool, desc string) {
 	return false, ""
 }
 
-func (e *env) notifyBootstrap(rt *rapid.T) bool {
+// notifyBootstrap starts 3 nodes with BootstrapExpect=3 and lets them notify each other the way
+// cluster.Bootstrapper does. quirk 0: plain (1-2 idempotent rounds). quirk 1: the third node first
+// announces itself under a different ID (restarted with a new ID before the cluster formed): two
+// IDs for one address reach the targets. quirk 2: the third node first announces a different
+// address for its ID (restarted on a new address). Returns (formed, ok); with a quirk the cluster
+// may legitimately never form.
+func (e *env) notifyBootstrap(rt *rapid.T, quirk int) (bool, bool) {
 	opts := e.c.Opts
 	opts.BootstrapExpect = 3
 	var ns []*vnode.Node
 	for i := 0; i < 3; i++ {
 		n, err := e.c.StartWith(e.ep(), e.id(), opts)
 		if err != nil {
-			return false
+			return false, false
 		}
 		ns = append(ns, n)
 	}
 	ctx := context.Background()
+	notify := func(from *vnode.Node, id, addr string) bool {
+		for _, target := range ns {
+			if err := from.Client.Notify(ctx, &proto.NotifyRequest{Id: id, Address: addr}, target.Addr, nil, 5*time.Second); err != nil {
+				return false
+			}
+		}
+		return true
+	}
+	switch quirk {
+	case 1:
+		if !notify(ns[0], ns[0].ID, ns[0].Addr) || !notify(ns[2], "ghost-"+ns[2].ID, ns[2].Addr) {
+			return false, false
+		}
+	case 2:
+		spare, err := e.c.Net.Listen(e.ep() + "-spare") // an address nobody serves raft on
+		if err != nil {
+			return false, false
+		}
+		defer spare.Close()
+		if !notify(ns[0], ns[0].ID, ns[0].Addr) || !notify(ns[2], ns[2].ID, spare.Addr().String()) {
+			return false, false
+		}
+	}
 	rounds := rapid.IntRange(1, 2).Draw(rt, "notifyRounds") // notifying is idempotent
 	for r := 0; r < rounds; r++ {
 		for _, n := range ns {
-			for _, target := range ns {
-				if err := n.Client.Notify(ctx, &proto.NotifyRequest{Id: n.ID, Address: n.Addr}, target.Addr, nil, 5*time.Second); err != nil {
-					return false
-				}
+			if !notify(n, n.ID, n.Addr) {
+				return false, false
 			}
 		}
+	}
+	e.trace = append(e.trace, fmt.Sprintf("notify-bootstrap quirk=%d x%d", quirk, rounds))
+	if quirk != 0 {
+		// only uniqueness is judged: whatever configuration any node holds must be duplicate-free
+		time.Sleep(500 * time.Millisecond)
+		return false, true
 	}
 	for _, n := range ns {
 		e.model[n.ID] = &member{id: n.ID, addr: n.Addr, voter: true, node: n, alive: true}
 	}
-	e.trace = append(e.trace, fmt.Sprintf("notify-bootstrap x%d", rounds))
-	return true
+	return true, true
 }
 
 func TestVerif_C32_Hist(t *testing.T) {
@@ -491,11 +545,27 @@ func TestVerif_C32_Hist(t *testing.T) {
 			rt.Fatalf("%s", rec.Violation(sig, "%s", full))
 		}
 		if p.Notify {
-			if !e.notifyBootstrap(rt) {
+			formed, ok := e.notifyBootstrap(rt, p.Quirk)
+			if !ok {
 				rec.Label("inconclusive:notify-bootstrap")
 				return
 			}
-			rec.Label("start:notify-bootstrap")
+			rec.Label(fmt.Sprintf("start:notify-bootstrap-quirk%d", p.Quirk))
+			if !formed {
+				for _, n := range e.c.Live() {
+					if cfg, err := vnode.Config(n); err == nil {
+						if sig, msg := uniq(cfg); sig != "" {
+							fail(sig, fmt.Sprintf("%s in the configuration of %s after notify-driven bootstrap: %v", msg, n.Name, cfg))
+						}
+						if len(cfg) > 0 {
+							rec.Label("quirk-bootstrap:configured")
+						}
+					}
+				}
+				rec.Case(true, p.String())
+				rec.Sample(strings.Join(e.trace, " | "))
+				return
+			}
 		} else {
 			n0, err := e.c.Start(e.ep(), e.id())
 			if err != nil || e.c.Bootstrap(n0) != nil {
@@ -575,6 +645,7 @@ func TestVerif_C32_Hist(t *testing.T) {
 				}
 				e.c.Crash(m.node)
 				m.alive = false
+				m.deadAt = time.Now()
 				killed := time.Now()
 				e.trace = append(e.trace, fmt.Sprintf("kill %s (%s, reap timeout %v)", m.id, role, timeout))
 				gone := time.Duration(-1)
